@@ -6,6 +6,7 @@ before the call; afterwards z3 is asked whether any cell can differ for some con
 """
 
 import collections
+import os
 import copy
 import random
 
@@ -129,6 +130,73 @@ def write_shadow_replay(spec):
     with open(path, "w") as f:
         f.write("#!/venv/bin/python\n\"\"\"Replay (C09): the call on plain numpy arrays in the given memory layouts; every protected argument (and the buffer it views) must be unchanged afterwards.\"\"\"\nimport json, sys\nsys.path.insert(0, '/repo')\n" + SHADOW_FN + "SPEC = json.loads(r'''" + text + "''')\noutcome, changed = shadow_run(SPEC)\nprint('call: einx.%s(%r) layouts=%r ->' % (SPEC['op'], SPEC['desc'], SPEC['layouts']), outcome)\nfor c in changed:\n    print('  argument %d (%s): before %r after %r' % (c['argument'], c['layout'], c['before'], c['after']))\nif changed:\n    print('REPRODUCED: einx modified an argument it must not modify'); sys.exit(1)\nprint('NOT-REPRODUCED'); sys.exit(0)\n")
     return path
+
+
+RACE_REPLAY = r'''#!/venv/bin/python
+"""Replay (C09): an *_at call whose thread is paused inside {function}() ({file}) right after that function touched
+the shared object `{obj}`, while another thread makes a read-only einx call on the same arrays in another order.
+Afterwards only the *_at target may have changed."""
+import sys, threading
+sys.path.insert(0, "/repo")
+import numpy as np
+import einx
+FILE, FUNC, LINE = {file!r}, {function!r}, {line}
+a_in, b_done = threading.Event(), threading.Event()
+def tracer(frame, event, arg):
+    if event == "call":
+        co = frame.f_code
+        if co.co_name == FUNC and co.co_filename.endswith(FILE):
+            return local
+        return tracer
+    return None
+def local(frame, event, arg):
+    if event == "return" and not a_in.is_set():
+        a_in.set(); b_done.wait(20)
+    return local
+bad = []
+for op, sign in (("add_at", 1), ("subtract_at", -1), ("set_at", 0)):
+    a_in.clear(); b_done.clear()
+    x = np.zeros(4); idx = np.array([0, 1, 1, 3]); u = np.array([1.0, 2.0, 3.0, 4.0])
+    u0, idx0 = u.copy(), idx.copy()
+    out = {{}}
+    def run_a():
+        sys.settrace(tracer)
+        try: out["A"] = getattr(einx, op)("[h], p, p", x, idx, u)
+        except Exception as e: out["A"] = "raised " + type(e).__name__
+        finally: sys.settrace(None); a_in.set()
+    def run_b():
+        a_in.wait(20)
+        try: out["B"] = einx.add("p, p, p", u, idx, x)
+        except Exception as e: out["B"] = "raised " + type(e).__name__
+        finally: b_done.set()
+    ta, tb = threading.Thread(target=run_a), threading.Thread(target=run_b)
+    ta.start(); tb.start(); ta.join(60); tb.join(60)
+    if not np.array_equal(u, u0) or not np.array_equal(idx, idx0):
+        bad.append(op)
+        print("einx.%s('[h], p, p', x, idx, u): updates before %r after %r; coordinates before %r after %r" % (op, u0.tolist(), u.tolist(), idx0.tolist(), idx.tolist()))
+if bad:
+    print("REPRODUCED: a coordinate / update tensor of an *_at call was modified"); sys.exit(1)
+print("NOT-REPRODUCED"); sys.exit(0)
+'''
+
+
+def race_probe(rep):
+    """Objects that outlive a call and are mutated without a lock in the API layer (found from the AST, see C10) can
+    make one call run on another call's tensors: replay an *_at call against a concurrent read-only call."""
+    from checks import c10
+
+    cands = [c for c in c10.scan_unsynchronised_mutables() if "/frontend/" in c["file"] or "/util/" in c["file"]]
+    res = []
+    for cand in cands:
+        os.makedirs(os.path.join(runner.REPLAY_DIR, PROP), exist_ok=True)
+        path = os.path.join(runner.REPLAY_DIR, PROP, f"race_{os.path.basename(cand['file'])[:-3]}_{cand['function']}_{cand['object']}.py")
+        with open(path, "w") as f:
+            f.write(RACE_REPLAY.format(file=cand["file"], function=cand["function"], obj=cand["object"], line=cand["line"]))
+        ok, out = replay.run_script(path, timeout=200)
+        res.append(dict(cand, reproduced=ok))
+        if ok:
+            rep.violation({"kind": "argument-modified-under-interleaving", "file": cand["file"], "function": cand["function"], "object": cand["object"]}, path, f"{cand['kind']} `{cand['object']}` mutated in {cand['function']}() ({cand['file']}): an *_at call ran on another call's tensors\n{out[-600:]}")
+    return res
 
 
 def container_meta(v):
@@ -371,6 +439,7 @@ def main():
             rep.harness_error(f"{r.get('error')} {r.get('trace', '')[-600:]}")
         else:
             rep.inconclusive.append({"why": st_, "op": case["op"], "desc": case["desc"], "layouts": r.get("layouts")})
+    race = race_probe(rep)
     # vacuity: the alias tracking must see the documented in-place update of a contiguous *_at target
     if not any(k == ("C", True) for k in target_mod):
         rep.harness_error(f"alias tracking never observed the in-place update of a contiguous *_at target: {dict(target_mod)}")
@@ -384,6 +453,7 @@ def main():
         "status_counts": dict(status),
         "layouts_in_passing_harnesses": dict(lay_count),
         "einx_outcomes_in_passing_harnesses": dict(calls),
+        "shared_objects_in_api_layer_replayed_with_interleaving": race,
         "update_target_in_place_by_layout": {f"{k[0]}:{k[1]}": v for k, v in target_mod.items()},
         "solver_time_s": round(solver_s, 3),
         "model_selftest": {"checks": st["checks"], "failures": len(st["failures"])},
